@@ -7,6 +7,8 @@ import (
 	"strconv"
 	"strings"
 
+	"google.golang.org/grpc"
+	"google.golang.org/grpc/metadata"
 	"google.golang.org/protobuf/encoding/protojson"
 	"google.golang.org/protobuf/proto"
 	"google.golang.org/protobuf/reflect/protoreflect"
@@ -32,6 +34,7 @@ type c04Case struct {
 	Accept    string `json:"accept"`
 	AcceptEnc string `json:"accept_encoding"`
 	Verb      string `json:"verb"`
+	SendHdr   bool   `json:"handler_calls_SendHeader_first"`
 }
 
 type c04Env struct {
@@ -200,7 +203,14 @@ func (e *c04Env) exec(tc *c04Case) (oracle, note string) {
 	case "echo":
 		wantMsg = e.replies[tc.Reply]
 		e.cimpl.reset()
-		e.cimpl.reply = func(c *dyn.Call) (proto.Message, error) { return proto.Clone(wantMsg), nil }
+		e.cimpl.reply = func(c *dyn.Call) (proto.Message, error) {
+			if tc.SendHdr {
+				if err := grpc.SendHeader(c.Ctx, metadata.Pairs("x-early", "1")); err != nil {
+					return nil, err
+				}
+			}
+			return proto.Clone(wantMsg), nil
+		}
 		body := reqBodyFor(newComplexMsg().Interface())
 		res = doHTTP(e.cmux, tc.Verb, "/c04/echo", "", hdr, body)
 		if e.cimpl.n != 1 && !res.Panicked {
@@ -230,7 +240,11 @@ func (e *c04Env) exec(tc *c04Case) (oracle, note string) {
 			hb.Set(e.t.body.Fields().ByName("content_type"), protoreflect.ValueOfString(wantRawCT))
 		}
 		hb.Set(e.t.body.Fields().ByName("data"), protoreflect.ValueOfBytes(wantRaw))
-		e.timpl.reset(hScript{Replies: []proto.Message{hb}})
+		hs := hScript{Replies: []proto.Message{hb}}
+		if tc.SendHdr {
+			hs.SendHdr = metadata.Pairs("x-early", "1")
+		}
+		e.timpl.reset(hs)
 		up := reqBody{Data: []byte("upload"), CL: -2}
 		if hdr.Get("Content-Type") == "" {
 			hdr.Set("Content-Type", "text/plain")
@@ -370,6 +384,19 @@ func c04Cases(e *c04Env, thorough bool) []c04Case {
 			}
 		}
 	}
+	// the handler sends its header metadata itself before returning the reply
+	for _, name := range []string{"empty", "all-kinds", "big-64KiB"} {
+		for _, rct := range reqCTs[:4] {
+			for _, a := range fewAccept {
+				out = append(out, c04Case{Method: "echo", Reply: name, ReqCT: rct, Accept: a, Verb: "POST", SendHdr: true})
+			}
+		}
+	}
+	for _, ct := range []string{"image/jpeg", "application/x-blob"} {
+		for _, a := range []string{"", "application/json", "*/*"} {
+			out = append(out, c04Case{Method: "raw", Reply: ct + "|1000", Accept: a, SendHdr: true})
+		}
+	}
 	// every Accept list × request types × three replies (POST and body-less GET)
 	for _, a := range accepts {
 		for _, rct := range reqCTs {
@@ -400,7 +427,7 @@ func c04Cases(e *c04Env, thorough bool) []c04Case {
 
 func runC04(c *Ctx) {
 	r := c.Run
-	r.Rule("reply{empty, each field kind with a boundary value, maps/struct/any/repeated messages, all kinds at once, 64KiB} × request Content-Type{none,json,protobuf,octet-stream,unregistered} × Accept{every list of <= 2 ranges from {json,protobuf,octet-stream,application/*,*/*,text/plain,junk,google.api.HttpBody} × q{none,0,0.5,1}, plus malformed} × Accept-Encoding{none,gzip,identity,*,gzip;q=0,junk,list,a content type}; response_body selector; google.api.HttpBody replies (4 content types × 4 sizes incl. JSON-looking bytes); distinct = (method, reply, request type, Accept class, Accept-Encoding)")
+	r.Rule("reply{empty, each field kind with a boundary value, maps/struct/any/repeated messages, all kinds at once, 64KiB} × request Content-Type{none,json,protobuf,octet-stream,unregistered} × Accept{every list of <= 2 ranges from {json,protobuf,octet-stream,application/*,*/*,text/plain,junk,google.api.HttpBody} × q{none,0,0.5,1}, plus malformed} × Accept-Encoding{none,gzip,identity,*,gzip;q=0,junk,list,a content type}; response_body selector; handlers that call grpc.SendHeader before replying; google.api.HttpBody replies (4 content types × 4 sizes incl. JSON-looking bytes); distinct = (method, reply, request type, Accept class, Accept-Encoding)")
 	r.Assume("which admitted type is chosen and q=0 exclusions of a more specific range are not demanded", "a request with an unregistered content type and a body may be refused")
 	e0 := newC04Env()
 	cases := c04Cases(e0, c.Thorough())
@@ -414,7 +441,7 @@ func runC04(c *Ctx) {
 		r.Eval(1)
 		if oracle != "" {
 			r.Outcome("FAIL:" + oracle)
-			r.Violation(report.Violation{Oracle: oracle, Key: fmt.Sprintf("%s method=%s reply=%s reqct=%q accept=%q accept-encoding=%q verb=%s", oracle, tc.Method, tc.Reply, tc.ReqCT, tc.Accept, tc.AcceptEnc, tc.Verb), Case: *tc, Note: note})
+			r.Violation(report.Violation{Oracle: oracle, Key: fmt.Sprintf("%s method=%s reply=%s reqct=%q accept=%q accept-encoding=%q verb=%s sendheader=%v", oracle, tc.Method, tc.Reply, tc.ReqCT, tc.Accept, tc.AcceptEnc, tc.Verb, tc.SendHdr), Case: *tc, Note: note})
 			return
 		}
 		if note == "" {
@@ -422,7 +449,7 @@ func runC04(c *Ctx) {
 		}
 		r.Outcome(tc.Method + ":" + note)
 		offers, dub := admitted(tc.Accept)
-		r.Distinct(fmt.Sprintf("%s|%s|%s|%d|%v|%s", tc.Method, tc.Reply, tc.ReqCT, len(offers), dub, tc.AcceptEnc))
+		r.Distinct(fmt.Sprintf("%s|%s|%s|%d|%v|%s|%v", tc.Method, tc.Reply, tc.ReqCT, len(offers), dub, tc.AcceptEnc, tc.SendHdr))
 		if r.WantSample() && i%1999 == 3 {
 			r.Sample(*tc)
 		}
